@@ -74,7 +74,7 @@ theorem public_key_is_g_over_f (chk : Bool) (d : Nat) (hd : d ≤ 10) (f g : Lis
     (lf : f.length = 2 ^ d) (lg : g.length = 2 ^ d) (cf : ∀ x ∈ f, x < 12289) (cg : ∀ x ∈ g, x < 12289)
     (hinv : ∀ x ∈ ntt d f, x ≠ 0) :
     ∃ finv h, Zq.batchInv chk (ntt d f) = .ok finv ∧ intt d (hadamard (ntt d g) finv) = .ok h ∧
-      h.length = 2 ^ d ∧ (∀ x ∈ h, x < 12289) ∧ negacyc (2 ^ d) h f = g := by
+      h.length = 2 ^ d ∧ (∀ x ∈ h, x < 12289) ∧ negacyc (2 ^ d) h f = g ∧ ntt d h = hadamard (ntt d g) finv := by
   have nf := ntt_lt d 1 f cf lf
   have ng := ntt_lt d 1 g cg lg
   have lnf : (ntt d f).length = 2 ^ d := nttRec_length d 1 f lf
@@ -89,7 +89,7 @@ theorem public_key_is_g_over_f (chk : Bool) (d : Nat) (hd : d ≤ 10) (f g : Lis
     obtain ⟨i, _, rfl⟩ := hx
     exact Nat.mod_lt _ (by decide)
   obtain ⟨h, hh, hnt, lh, ch⟩ := ntt_intt_q d hd _ lw cw
-  refine ⟨_, h, hb, hh, lh, ch, ?_⟩
+  refine ⟨_, h, hb, hh, lh, ch, ?_, hnt⟩
   -- ntt h ⊙ ntt f = ntt g slot by slot
   have hrel : hadamard (ntt d h) (ntt d f) = ntt d g := by
     rw [hnt]
@@ -113,6 +113,27 @@ theorem public_key_is_g_over_f (chk : Bool) (d : Nat) (hd : d ≤ 10) (f g : Lis
       exact Nat.mod_lt _ (by decide)
   have h1 := C11.ntt_mul_exact d hd h f lh lf
   rw [hrel, C11.intt_ntt d hd g lg cg] at h1
+  exact (Res.ok.inj h1).symm
+
+/-- **both key relations that verification needs, from the NTRU equation**: for every (f, g, F, G) with
+    f⋆G − g⋆F = q over ℤ and no zero slot in ntt f, the derived public key h = intt(ntt g ⊙ batch_inverse(ntt f))
+    satisfies h ⋆ f = g and h ⋆ F = G in Z_q[X]/(Xⁿ+1) -/
+theorem derived_key_relations (chk : Bool) (d : Nat) (hd : d ≤ 10) (f g cF cG : List Int)
+    (lf : f.length = 2 ^ d) (lg : g.length = 2 ^ d) (lF : cF.length = 2 ^ d) (lG : cG.length = 2 ^ d)
+    (hntru : RingZ.ntruLhs (2 ^ d) f g cF cG = (12289 : Int) :: List.replicate (2 ^ d - 1) 0)
+    (hinv : ∀ x ∈ ntt d (toZq f), x ≠ 0) :
+    ∃ finv h, Zq.batchInv chk (ntt d (toZq f)) = .ok finv ∧ intt d (hadamard (ntt d (toZq g)) finv) = .ok h ∧
+      h.length = 2 ^ d ∧ (∀ x ∈ h, x < 12289) ∧
+      negacyc (2 ^ d) h (toZq f) = toZq g ∧ negacyc (2 ^ d) h (toZq cF) = toZq cG := by
+  have tl : ∀ l : List Int, l.length = 2 ^ d → (toZq l).length = 2 ^ d := fun l h => by simp [toZq, h]
+  obtain ⟨finv, h, hb, hh, lh, ch, hrel, hnt⟩ :=
+    public_key_is_g_over_f chk d hd (toZq f) (toZq g) (tl f lf) (tl g lg) (toZq_lt f) (toZq_lt g) hinv
+  obtain ⟨finv', hb', hG⟩ := recomputed_G chk d hd f g cF cG lf lg lF lG hntru hinv
+  have : finv' = finv := by rw [hb] at hb'; exact (Res.ok.inj hb').symm
+  subst this
+  refine ⟨finv', h, hb, hh, lh, ch, hrel, ?_⟩
+  have h1 := C11.ntt_mul_exact d hd h (toZq cF) lh (tl cF lF)
+  rw [hnt, hG] at h1
   exact (Res.ok.inj h1).symm
 
 end Falcon.Ntt
